@@ -137,6 +137,26 @@ def site_name(body, bb):
     return "%s#%d" % (n, c)
 
 
+def _of_repr(body, base):
+    """the place is (a view of) a Repr / LeanString handle"""
+    b = strip_refs(base)
+    for _ in range(6):
+        if b[0] in ("ref", "rawptr"):
+            b = strip_refs(b[2])
+        elif b[0] == "deref":
+            b = strip_refs(b[1])
+        elif b[0] == "field":
+            if len(b) > 3 and b[3] and ("repr::Repr" in b[3]):
+                return True
+            b = strip_refs(b[1])
+        else:
+            break
+    if b[0] in ("param", "mem", "local"):
+        ty = body.local_ty(b[1]) or ""
+        return "repr::Repr" in ty or "LeanString" in ty
+    return b[0] == "call"      # a view returned by a call: keep the old (conservative) behaviour
+
+
 def nonheap_reached(ctx):
     """(function, call site) pairs executed on some feasible path of an API call whose receiver is
     inline or static (typestate walks of every exported root from kinds I and S)"""
@@ -454,7 +474,7 @@ def rule_C10(ctx):
             for s in blk["stmts"]:
                 if s["k"] == "assign" and s["rv"]["k"] == "cast" and s["rv"]["to"].startswith("*mut") and s["rv"]["from"].startswith("*const ()"):
                     e = strip_refs(body.origin_operand(s["rv"]["a"]))
-                    if e[0] == "field" and e[2] == 0:
+                    if e[0] == "field" and e[2] == 0 and _of_repr(body, e[1]):
                         n += 1
                         gs = guards_at(body, bb)
                         under_heap = any(g[0] == "pred" and g[1] == "repr::Repr::is_heap_buffer" and g[3] is True for g in gs)
@@ -463,10 +483,12 @@ def rule_C10(ctx):
     # the same through pointer-method casts (`self.0.cast_mut().cast::<u8>()`)
     for path, body in F.bodies.items():
         for bb, t in body.calls():
-            if callee_name(t) in ("core::ptr::const_ptr::<impl *const T>::cast_mut",) and t["args"]:
+            k_ = t.get("local_key")
+            helper = bool(k_) and k_ in F.bodies and k_ not in anchors(F) and len(t["args"]) == 1 and not t["dest"]["p"] and (body.local_ty(t["dest"]["l"]) or "").startswith("*mut")
+            if (callee_name(t) in ("core::ptr::const_ptr::<impl *const T>::cast_mut",) or helper) and t["args"]:      # (or a private `DataPtr::as_mut_ptr(self.0)`)
                 from guards import peel_ptr
                 e = peel_ptr(body, body.origin_operand(t["args"][0]))      # (`self.0.cast::<u8>().cast_mut()`)
-                if e[0] == "field" and e[2] == 0 and body.local_ty(t["dest"]["l"]).startswith("*mut"):
+                if e[0] == "field" and e[2] == 0 and _of_repr(body, e[1]) and body.local_ty(t["dest"]["l"]).startswith("*mut"):
                     n += 1
                     gs = guards_at(body, bb)
                     under_heap = any(g[0] == "pred" and g[1] == "repr::Repr::is_heap_buffer" and g[3] is True for g in gs)
